@@ -6,6 +6,7 @@ import Umya.Model.Reader
 import Umya.Model.ReaderSheet
 import Umya.Model.ReaderStyleView
 import Umya.Model.ReaderBook
+import Umya.Model.CoordCanon
 /-
   C03 driver.  `c03 part <namehex> <isxml> <hex>` collects the parts of one package (lexed by
   `Umya.Spec.Xml`), `c03 decode` answers with the violations found by the independent decoder and
@@ -178,9 +179,11 @@ def homeStr : Umya.Reader.Home → String
   | .book => "w"
   | .sheet k => toString k
 
-/-- the reader model's name with the list it is found in after loading -/
+/-- the reader model's name with the list it is found in after loading, and (5th field) the text EXACTLY as the model's
+    `get_address()` prints it — the spelling of the qualifiers included (`C03_defined_names_any_spelling`: `canonText` of the
+    file's text) -/
 def nameStrB (p : Umya.Reader.NameB × Umya.Reader.Home) : String :=
-  s!"{hexOf p.1.name}:{match p.1.localSheetId with | some i => toString i | none => "~"}:{hexOf (canonName p.1.body.text)}:{homeStr p.2}"
+  s!"{hexOf p.1.name}:{match p.1.localSheetId with | some i => toString i | none => "~"}:{hexOf (canonName p.1.body.text)}:{homeStr p.2}:{hexOf p.1.body.text}"
 
 def linkStr (l : Link) : String :=
   s!"{str l.ref}/{if l.external then "e" else "l"}/{hexOf l.target}/{if l.external then orTilde l.location else "~"}/{orTilde l.tooltip}"
@@ -392,8 +395,11 @@ def runModel (parts : List Part) (raws : List (String × List Char)) : MRes :=
         let nm := match partRoot parts "xl/workbook.xml".toList with
           | some (wb : Node) => (((wb.kid? "definedNames").map (fun (d : Node) => d.kids "definedName")).getD []).map (fun (d : Node) => d.ownText)
           | none => []
+        -- … and of their explicit grammars (Umya/Model/CoordCanon.lean): C03_merges_canonical, C03_defined_names_any_spelling;
+        -- `names-outside` lists (hex) up to three name texts of this file outside the wider grammar
+        let outside := nm.filter (fun v => !Umya.Annot.nameTextAnyB v)
         .ok (b.sheets.map toSheetM) b.names
-          s!"merges-ok={(ms.filter mergeRefOkB).length}/{ms.length} names-ok={(nm.filter nameTextOkB).length}/{nm.length}"
+          s!"merges-ok={(ms.filter mergeRefOkB).length}/{ms.length} names-ok={(nm.filter nameTextOkB).length}/{nm.length} merges-canon={(ms.filter Umya.Coord.canonRangeB).length}/{ms.length} names-any-ok={(nm.filter Umya.Annot.nameTextAnyB).length}/{nm.length} names-outside={",".intercalate ((outside.take 3).map hexOf)}"
     | _, _ => .unmodelled "no-workbook-part"
 
 end Model
